@@ -49,6 +49,41 @@ def tie_images(rng):
     return [g8, p8, rgb, g8]
 
 
+def apng_bad_frame(rng):
+    """RGB 8-bit animation, 10 to 14 full-size frames of smooth data compressed at level 0; one early frame holds a valid zlib stream
+    with too few rows (PngImage::new rejects it)"""
+    import struct
+    import zlib
+    import chunkgen
+    w, h = rng.choice([(16, 16), (24, 12), (20, 20)])
+    nfr = rng.randrange(10, 15)
+    bad = rng.randrange(1, 3)
+
+    def frame_stream(short=False):
+        base = rng.randrange(256)
+        rows = bytearray()
+        for y in range(h // 2 if short else h):
+            rows.append(0)
+            for x in range(w):
+                rows += bytes(((base + x + y) & 255, (base + 2 * x) & 255, (base + y) & 255))
+        return zlib.compress(bytes(rows), 0)
+
+    out = bytearray(pg.SIG)
+    out += pg.chunk("IHDR", pg.ihdr_bytes(w, h, 8, 2, False))
+    out += pg.chunk("acTL", struct.pack(">II", nfr + 1, 0))
+    seq = 0
+    out += pg.chunk("fcTL", chunkgen.fctl(seq, w, h, 0, 0, 1, 10, 0, 0))
+    seq += 1
+    out += pg.chunk("IDAT", frame_stream())
+    for i in range(nfr):
+        out += pg.chunk("fcTL", chunkgen.fctl(seq, w, h, 0, 0, 1, 10, 0, 0))
+        seq += 1
+        out += pg.chunk("fdAT", struct.pack(">I", seq) + frame_stream(short=(i == bad)))
+        seq += 1
+    out += pg.chunk("IEND", b"")
+    return bytes(out)
+
+
 def run(rep):
     rng = rep.rng
     quick = rep.tier == "quick"
@@ -172,7 +207,12 @@ def run(rep):
             # must not depend on which frame a worker happened to reach first
             import chunkgen
             import zlib
-            for _ in range(6):
+            if (k // 5) % 2 == 0:
+                # purpose-built: many full-size frames stored uncompressed (each certainly shrinks), the undecodable one early, so
+                # that workers which start further down the frame list finish frames a single worker never reaches
+                png = apng_bad_frame(rng)
+                o = f"preset={rng.choice([1, 2, 3])}"
+            for _ in range(0 if (k // 5) % 2 == 0 else 6):
                 a = chunkgen.gen_apng(rng, extra_frames=rng.choice([3, 4]), split=1)[0]
                 ch = e2e.chunk_list(a)
                 fd = [i for i, c in enumerate(ch) if c[4:8] == b"fdAT"]
